@@ -96,3 +96,46 @@ func VerifRibNodes() (nodes int, dead int) {
 	walk(&Rib.RibEntry)
 	return
 }
+
+// VerifFibShape is a white-box walk of the FIB/strategy table (either implementation).
+type VerifFibShape struct {
+	Nodes int // tree: nodes excluding the root; hash table: real entries excluding the root entry
+	Dead  int // tree: leaves with neither next hops nor strategy; hash table: real entries with neither
+	Virt  int // hash table: virtual entries
+	VirtDead int // hash table: virtual entries that no longer cover any real name
+}
+
+func VerifFibShapeOf() VerifFibShape {
+	var s VerifFibShape
+	switch f := FibStrategyTable.(type) {
+	case *FibStrategyTree:
+		var walk func(n *fibStrategyTreeEntry)
+		walk = func(n *fibStrategyTreeEntry) {
+			for _, c := range n.children {
+				s.Nodes++
+				if len(c.children) == 0 && len(c.nexthops) == 0 && c.strategy == nil {
+					s.Dead++
+				}
+				walk(c)
+			}
+		}
+		walk(f.root)
+	case *FibStrategyHashTable:
+		for _, e := range f.realTable {
+			if len(e.name) == 0 {
+				continue
+			}
+			s.Nodes++
+			if len(e.nexthops) == 0 && e.strategy == nil {
+				s.Dead++
+			}
+		}
+		s.Virt = len(f.virtTable)
+		for h := range f.virtTable {
+			if len(f.virtTableNames[h]) == 0 {
+				s.VirtDead++
+			}
+		}
+	}
+	return s
+}
